@@ -823,12 +823,12 @@ Proof. intros H1 H2. unfold add_expr_text, add_expr. by rewrite H1, H2. Qed.
 
 (** [add_expr(to_expr(u)) = u] on the raw text, character-level lexer *)
 Theorem to_expr_roundtrip_raw s u :
-  Inv s → valid s u → last_len s = None → max_nodes s = None →
+  Inv s → valid s u → last_len s = None →
   ∃ txt, to_expr u s = (Ok txt, s) ∧
-    ∀ r s', add_expr_text lex_alias reserved_words lex_rules code_prec txt s = (r, s') →
+    ∀ r s', max_nodes s = None → add_expr_text lex_alias reserved_words lex_rules code_prec txt s = (r, s') →
       r = Ok u ∧ Inv s' ∧ extends s s' ∧ last_len s' = None ∧ max_nodes s' = None.
 Proof.
-  intros HI Hu Hoff Hmx.
+  intros HI Hu Hoff.
   destruct (to_expr_ast_spec (S (S (nvars s))) s u HI Hu) as (a&Ea&Hok&Hsem); [lia|].
   pose proof (to_expr_rec_text (S (S (nvars s))) u s) as Ht. rewrite Ea in Ht.
   destruct Ht as [Hshape Ht].
@@ -837,7 +837,7 @@ Proof.
     by rewrite (bind_ok _ _ s tt s) by done. }
   pose proof (lex_te a Hshape) as Hlex.
   pose proof (parse_te_tokens a (te_shape_wf a Hshape)) as Hparse.
-  intros r s' Hrun.
+  intros r s' Hmx Hrun.
   rewrite (add_expr_text_eq _ _ _ _ _ _ _ s (lexc_expr_text a Hshape) Hlex) in Hrun.
   destruct (add_expr_sem _ _ _ _ _ a s r s' HI Hoff Hmx Hlex Hparse Hok Hrun)
     as (x&->&HI'&He&Hoff'&Hmx'&Hx&HD).
